@@ -91,3 +91,72 @@ Theorem C02_elided_sort_ties_refuted :
 Proof. exact na_find_all_not_find_ok. Qed.
 Print Assumptions C02_elided_sort_ties_refuted.
 
+
+(* ---- history level (Spec/IndexIndep.v, Proofs/IndexIndepProofs.v): two histories that differ only by CreateIndex / DropIndex operations
+   (inserted anywhere) hold the same documents in every collection, and the same query afterwards meets one specification on both;
+   the hypothesis on windowed bulk writes is needed (a Delete with Sort + Limit 1 over an absent/nil tie removes another document with
+   the index than without: _refuted witness) ---- *)
+From Clover Require Import IndexIndep IndexIndepProofs.
+Theorem C02_index_ops_keep_documents : forall db h o, wf_db db -> R db (durable h) -> closed h = false -> op_dom db o ->
+  is_index_op o = true ->
+  exists db', wf_db db' /\ R db' (durable (snd (step h o))) /\ docs_eq db db' /\ closed (snd (step h o)) = false.
+Proof. exact index_op_keeps_docs. Qed.
+Print Assumptions C02_index_ops_keep_documents.
+
+Theorem C02_step_documents_independent_of_indexes : forall db1 db2 h1 h2 o,
+  wf_db db1 -> wf_db db2 -> R db1 (durable h1) -> R db2 (durable h2) -> closed h1 = closed h2 ->
+  docs_eq db1 db2 -> is_index_op o = false -> unwindowed_write o ->
+  (closed h1 = false -> op_dom db1 o) -> (closed h2 = false -> op_dom db2 o) ->
+  exists db1' db2', wf_db db1' /\ wf_db db2' /\
+    R db1' (durable (snd (step h1 o))) /\ R db2' (durable (snd (step h2 o))) /\
+    closed (snd (step h1 o)) = closed (snd (step h2 o)) /\ docs_eq db1' db2'.
+Proof. exact step_docs_independent. Qed.
+Print Assumptions C02_step_documents_independent_of_indexes.
+
+Theorem C02_history_index_independent : forall ops1 ops2,
+  idx_variant ops1 ops2 -> Forall unwindowed_write ops1 ->
+  hist_dom empty_db ops1 -> hist_dom empty_db ops2 ->
+  exists db1 db2, wf_db db1 /\ wf_db db2 /\
+    R db1 (durable (snd (run_ops empty_db ops1))) /\ R db2 (durable (snd (run_ops empty_db ops2))) /\
+    closed (snd (run_ops empty_db ops1)) = closed (snd (run_ops empty_db ops2)) /\ docs_eq db1 db2.
+Proof. exact history_index_independent. Qed.
+Print Assumptions C02_history_index_independent.
+
+Theorem C02_history_index_transparent : forall ops1 ops2 q mode,
+  idx_variant ops1 ops2 -> Forall unwindowed_write ops1 ->
+  hist_dom empty_db (ops1 ++ [OFindAll q mode]) -> hist_dom empty_db (ops2 ++ [OFindAll q mode]) ->
+  closed (snd (run_ops empty_db ops1)) = false ->
+  forall nq, normalize_query (mk_query q) = Some nq ->
+  exists db1 db2,
+    wf_db db1 /\ wf_db db2 /\
+    R db1 (durable (snd (run_ops empty_db ops1))) /\ R db2 (durable (snd (run_ops empty_db ops2))) /\
+    docs_eq db1 db2 /\ closed (snd (run_ops empty_db ops2)) = false /\
+    query_agrees db1 db2 (snd (run_ops empty_db ops1)) (snd (run_ops empty_db ops2)) q nq /\
+    (* every abstract database of either final store lists the documents of db1, in some order *)
+    (forall db, wf_db db ->
+       R db (durable (snd (run_ops empty_db ops1))) \/ R db (durable (snd (run_ops empty_db ops2))) ->
+       forall sc, assoc (nq_coll nq) db = Some sc ->
+         exists sc1, assoc (nq_coll nq) db1 = Some sc1 /\ Permutation (sc_docs sc) (sc_docs sc1)).
+Proof. exact history_index_transparent. Qed.
+Print Assumptions C02_history_index_transparent.
+
+Theorem C02_abstract_state_determined_by_store : forall db db' s, wf_db db -> wf_db db' -> R db s -> R db' s ->
+  forall c sc, assoc c db = Some sc ->
+  exists sc', assoc c db' = Some sc' /\ Permutation (sc_docs sc) (sc_docs sc') /\ sc_idx sc = sc_idx sc'.
+Proof. exact R_docs_determined. Qed.
+Print Assumptions C02_abstract_state_determined_by_store.
+
+Theorem C02_independence_example :
+  exists db1 db2, wf_db db1 /\ wf_db db2 /\
+    R db1 (durable (snd (run_ops empty_db ii_ops1))) /\ R db2 (durable (snd (run_ops empty_db ii_ops2))) /\
+    closed (snd (run_ops empty_db ii_ops1)) = closed (snd (run_ops empty_db ii_ops2)) /\ docs_eq db1 db2.
+Proof. exact ii_independent. Qed.
+Print Assumptions C02_independence_example.
+
+Theorem C02_history_index_independent_windowed_refuted :
+  ~ (forall ops1 ops2, idx_variant ops1 ops2 -> hist_dom empty_db ops1 -> hist_dom empty_db ops2 ->
+       exists db1 db2, wf_db db1 /\ wf_db db2 /\
+         R db1 (durable (snd (run_ops empty_db ops1))) /\ R db2 (durable (snd (run_ops empty_db ops2))) /\
+         closed (snd (run_ops empty_db ops1)) = closed (snd (run_ops empty_db ops2)) /\ docs_eq db1 db2).
+Proof. exact history_index_independent_windowed_refuted. Qed.
+Print Assumptions C02_history_index_independent_windowed_refuted.
